@@ -37,6 +37,7 @@ class RevokeStream(Stream):
     driver = "pkirevoke"
     harness = {"name": "pkic16", "module": "root", "pkg": "./internal/builtin/logical/pki",
                "files": {"internal/builtin/logical/pki/zz_verif_c16_test.go": "wb/pki/zz_verif_c16_test.go",
+                         "internal/builtin/logical/pki/zz_verif_c16s_test.go": "wb/pki/zz_verif_c16s_test.go",
                          "internal/zzverif/vh/vh.go": "vh/vh.go"}}
     testname = "TestVerifC16"
     timeout = 2400
@@ -210,9 +211,30 @@ class RevokeStream(Stream):
         return out
 
 
+class ScenarioStream(Stream):
+    name = "pkiscen"
+    driver = "pkiscen"
+    harness = {"name": "pkic16", "module": "root", "pkg": "./internal/builtin/logical/pki",
+               "files": {"internal/builtin/logical/pki/zz_verif_c16_test.go": "wb/pki/zz_verif_c16_test.go",
+                         "internal/builtin/logical/pki/zz_verif_c16s_test.go": "wb/pki/zz_verif_c16s_test.go",
+                         "internal/zzverif/vh/vh.go": "vh/vh.go"}}
+    testname = "TestVerifC16Scenarios"
+    timeout = 900
+    rule = ("directed scenarios at predicate level on the real pki backend: issuer/<ref>/revoke of an intermediate signed in the "
+            "mount with a storage fault at EVERY write position, restart and retry; config/crl auto_rebuild / disable switched off "
+            "with a fault at every write position and a retry; two issuers with the same key and subject when the one a revoked "
+            "leaf is associated with loses crl-signing; a CA certificate revoked by serial and then imported as an issuer; "
+            "LIST certs/revoked paged with limit 1/2/5; afterwards status API, OCSP and the issuer's complete CRL are asked; "
+            "the expected answer comes from the write-level model Obao.PKIReport (theorems issuer_revoke_reported_after_retry, "
+            "config_crl_current_after_retry); non-trivial = every line")
+
+    def nontrivial(self, op, impl):
+        return True
+
+
 class C16(PropCheck):
     pid = "C16"
-    streams = [RevokeStream()]
+    streams = [RevokeStream(), ScenarioStream()]
     search_tier = "quick"
     search_seeds = 3
     level_text = ("Lean theorems over a micro-step model of pki revocation and CRL building (revoked_everywhere, "
